@@ -3,13 +3,13 @@ module verif/harness
 go 1.21
 
 require (
+	git.apache.org/thrift.git v0.13.0
+	github.com/gogo/protobuf v1.2.1
 	github.com/henrylee2cn/erpc/v6 v6.0.0
 	github.com/henrylee2cn/goutil v0.0.0-20200416032639-974f5b4094a2
 )
 
 require (
-	git.apache.org/thrift.git v0.13.0 // indirect
-	github.com/gogo/protobuf v1.2.1 // indirect
 	github.com/henrylee2cn/ameda v1.3.6 // indirect
 	github.com/henrylee2cn/cfgo v0.0.0-20180417024816-e6c3cc325b21 // indirect
 	github.com/klauspost/cpuid v1.2.2 // indirect
